@@ -160,6 +160,15 @@ theorem dissect_total (mask : MaskFn) (env : Env) (isServer : Bool) (guessed : B
       omega
   exact key _ _ h1
 
+/-- "never invents data": on ARBITRARY bytes the payload, the token and the Length bytes of every returned packet are
+    Python slices `datagram[a:b]` of the data the call was given (the packet number is such a slice XOR the mask) -/
+theorem no_invented_data (mask : MaskFn) (env : Env) (isServer : Bool) (guessed : Bytes) (ts : Nat) (d : Bytes)
+    (p : Pkt) (hp : p ∈ (extract mask env isServer guessed ts d).pkts) :
+    (∀ x, p.payload = some x → ∃ a b, x = Bytes.slice d a b) ∧
+    (∀ x, p.token = some x → ∃ a b, x = Bytes.slice d a b) ∧
+    (∀ x, p.lenBytes = some x → ∃ a b, x = Bytes.slice d a b) :=
+  Lemmas.QuicDissect.extract_fields_slices mask env isServer guessed ts d p hp
+
 /-! ### the associated data -/
 
 /-- RFC 9001 §5.3: the associated data QuicSession.decrypt_packet assembles from the dissected fields of a long-header
@@ -254,6 +263,13 @@ example : dissectAll exMask exEnv false [] 5 (exInitial.protect exMaskI ++ List.
 
 example : ∃ t, 1 ≤ t ∧ (extract exMask exEnv true [] 5 [0xc3, 1, 2]).rest = ([0xc3, 1, 2] : Bytes).drop t :=
   (dissect_progress exMask exEnv true [] 5 [0xc3, 1, 2] (by simp)).1
+
+example : ∀ x, (exInitial.toPkt false 5).payload = some x → ∃ a b, x = Bytes.slice (exInitial.protect exMaskI) a b :=
+  (no_invented_data exMask exEnv false [] 5 (exInitial.protect exMaskI) (exInitial.toPkt false 5) (by
+    have := dissect_encode_long exMask exEnv false [] 5 exInitial (by decide) (by decide) (by decide) (by decide)
+      [1, 2, 3] exMaskI rfl (by decide) (by decide) []
+    rw [List.append_nil] at this
+    rw [this]; simp)).1
 
 example : aad (exInitial.toPkt false 5) = some exInitial.header := aad_is_header_long _ _ _
 example : aad (exShort.toPkt false 5) = some exShort.header := aad_is_header_short _ _ _
